@@ -50,8 +50,8 @@ func (stdin *Stdin) GetDataType() (dt string) {
 			//stdin.mutex.Lock()
 			stdin.mutex.Lock()
 			dt = stdin.dataType
-			stdin.mutex.Unlock()
 			verifhook.Emit(stdin, "gdt.cancel", dt)
+			stdin.mutex.Unlock()
 			//stdin.dtLock.Unlock()
 			//stdin.mutex.Unlock()
 			if dt != "" {
